@@ -107,11 +107,13 @@ func init() {
 		Split: append(append([]SplitDim{}, layoutSplit...), SplitDim{"roll", two}, SplitDim{"calls", same("calls")}, SplitDim{"view", func(map[string]int) int { return 3 }}), Reach: []string{"session", "equal-run"}}
 	addProp(&Prop{ID: "C10", DesignRef: "DESIGN.md §4 C10", Runs: []HarnessRun{idxTime, qTime, noIndex, session},
 		Assumptions: []string{"message times never decrease with offset and are not before 1970-01-01 (pre-1970 times: see known finding C10-negative-times)", "query times at 1 microsecond granularity"}})
-	qKey := HarnessRun{Name: "h_log.QueryKey", Quick: B{"segs": 2, "recs": 2, "vers": 3, "profs": 2, "keylen": 1}, Thorough: B{"segs": 3, "recs": 2, "vers": 4, "profs": 3, "keylen": 2}, Split: layoutSplit,
-		Reach: []string{"index-rebuilt", "uf:hash-collision", "absent", "present", "empty-key-present", "cursor-before-first-segment"}}
+	qKey := HarnessRun{Name: "h_log.QueryKey", Quick: B{"segs": 2, "recs": 2, "vers": 3, "profs": 2, "keylen": 1}, Thorough: B{"segs": 3, "recs": 2, "vers": 4, "profs": 2, "keylen": 1}, Split: layoutSplit,
+		Reach: []string{"index-rebuilt", "uf:hash-collision", "absent", "present", "empty-key-present"}}
+	qKeyCursor := HarnessRun{Name: "h_log.QueryKey", Quick: B{"segs": 2, "recs": 2, "maxmsgs": 3, "vers": 1, "profs": 1, "keylen": 1, "cursor_check": 1}, Thorough: B{"segs": 2, "recs": 2, "vers": 2, "profs": 2, "keylen": 1, "cursor_check": 1}, Split: layoutSplit,
+		Reach: []string{"cursor-before-first-segment"}}
 	qKeyReal := HarnessRun{Name: "h_log.QueryKeyReal", Quick: B{"segs": 2, "recs": 1, "vers": 1, "profs": 1, "realkeys": 3}, Thorough: B{"segs": 2, "recs": 2, "vers": 2, "profs": 1, "realkeys": 5},
 		Split: []SplitDim{{"layout", numLayouts}, {"ver", same("vers")}, {"prof", same("profs")}}, Reach: []string{"real-hash-collision"}}
-	addProp(&Prop{ID: "C09", DesignRef: "DESIGN.md §4 C09", Runs: []HarnessRun{qKey, qKeyReal, noIndex, session},
+	addProp(&Prop{ID: "C09", DesignRef: "DESIGN.md §4 C09", Runs: []HarnessRun{qKey, qKeyCursor, qKeyReal, noIndex, session},
 		Assumptions: []string{"FNV-1a-64 is an uninterpreted function: the solver is free to make any two keys collide"}})
 	lenCount := func(name string) func(map[string]int) int {
 		return func(b map[string]int) int {
@@ -168,7 +170,7 @@ func init() {
 		step("Reuse", B{"segs": 2, "recs": 2, "vers": 2, "profs": 1, "paramsets": 1, "rmindex": 1}, stepT, "all-deleted", "tail-deleted", "empty-head-reopened"),
 		step("Publish", B{"segs": 2, "recs": 1, "vers": 1, "profs": 1, "paramsets": 2, "rmindex": 1, "batch": 2}, stepT, "rollover", "empty-batch", "empty-batch-with-rollover"),
 		step("Reuse", B{"segs": 1, "recs": 3, "vers": 1, "profs": 1, "paramsets": 1, "rmindex": 1}, B{"segs": 2, "recs": 3, "vers": 2, "profs": 1, "paramsets": 2, "rmindex": 1}, "tail-deleted"),
-		step("Delete", B{"segs": 1, "recs": 3, "vers": 1, "profs": 1, "paramsets": 1, "rmindex": 1, "deletes": 2}, B{"segs": 1, "recs": 3, "vers": 2, "profs": 1, "paramsets": 2, "rmindex": 1, "deletes": 2}, "deleted-some"),
+		step("Delete", B{"quick_skip": 1}, B{"segs": 1, "recs": 3, "vers": 2, "profs": 1, "paramsets": 2, "rmindex": 1, "deletes": 2}, "deleted-some"),
 		qStat,
 	}})
 	// C11: index files are derived data
